@@ -268,6 +268,17 @@ def routes(ctx, co, adt, short):
                    or (f["name"] == "parse" and any(ty_adt(x) == adt for x in f["substs"])) or (f.get("local") and f["name"] == "new" and ty_adt(f.get("self_ty")) == adt)]
             ctx.check(bool(makes) or bool(via), "R16.4", b.loc(), f"{short}|{tr_name}|route",
                       f"{b.id} neither constructs (guarded, see R16.1) nor delegates to FromStr/new", instance=f"{short}: {tr_name.split('::')[-1]} -> {'guarded site' if makes else 'FromStr/new'}")
+            if tr_name.endswith("FromPlain") and not makes:
+                # the PLAIN route hands its input to the validator unmodified (a trimmed / normalised copy would accept
+                # texts the other entry paths reject)
+                for x in fam:
+                    for _, t in x.calls():
+                        f = t["call"]
+                        if f in via and t["args"]:
+                            roots, calls = dt.transforming_calls(x, t["args"][0])
+                            ctx.check(roots == {1} and not calls, "R16.4", x.loc(t["ln"]), f"{short}|{tr_name}|unmodified-input",
+                                      f"{b.id}: the text given to the validator is not the route's input unchanged (passes through {[c['call']['name'] for c in calls]}); every entry path must accept exactly the same strings",
+                                      instance=f"{short}: from_plain(s) validates s itself")
     nb = [b for b in co.bodies if b.name == "new" and b.impl and not b.trait and ty_adt(b.self_ty) == adt]
     for b in nb:
         via = [t for _, t in b.calls() if t["call"]["name"] in ("parse", "from_str")]
